@@ -90,8 +90,13 @@ def _kb_jwt_sym(F, r3, kfn):
                     okh = False
                     for d in digs:
                         for (a, c, _, _) in q.decisions:
-                            if a[0] == "eq" and c is True and any(x == ("field", kbc, "sd_hash") or SR.derives(x, ("field", kbc, "sd_hash")) for x in (a[1], a[2])) and any(SR.derives(x, d.result.t) for x in (a[1], a[2])):
-                                okh = d
+                            # whole-value equality: one operand IS the claim, the other IS the digest (through reference / string-view conversions
+                            # only) — not some term computed from both, such as a fold over their zipped bytes, which also "equals" on a prefix
+                            if a[0] == "eq" and c is True:
+                                HC = re.compile(r"(as_ref|as_str|as_bytes|as_slice|deref|borrow|clone|to_owned|to_string|String::from|from|into)$")
+                                for x, y in ((a[1], a[2]), (a[2], a[1])):
+                                    if SR.pure(x, ("field", kbc, "sd_hash"), conv=HC) and SR.pure(y, d.result.t, conv=HC):
+                                        okh = d
                     if r3.require(bool(okh), (kfn, "check", "sd_hash"), "success without `kb_claims.sd_hash == digest` — path: …%s" % why):
                         hs, pl = okh.args[0], okh.args[1]
                         dh = [e for e in q.calls(r"determine_hasher$") if q.succeeded(e) is True and SR.derives(hs, e.result.t)]
@@ -114,7 +119,8 @@ def _kb_jwt_sym(F, r3, kfn):
                         OT = SR.fld(opt, base=OPT)
                         ov = SR.variant(q, OT)
                         if ov == "Some":
-                            okq = any(a[0] == "eq" and c is True and any(SR.derives(x, ("payload", OT, "Some", 0)) for x in (a[1], a[2])) and any(SR.derives(x, ("field", kbc, opt)) for x in (a[1], a[2]))
+                            HC2 = re.compile(r"(as_ref|as_str|as_bytes|as_slice|as_deref|deref|borrow|clone|to_owned|to_string|from|into)$")
+                            okq = any(a[0] == "eq" and c is True and any(SR.pure(x, ("payload", OT, "Some", 0), conv=HC2) and SR.pure(y, ("field", kbc, opt), conv=HC2) for x, y in ((a[1], a[2]), (a[2], a[1])))
                                       for (a, c, _, _) in q.decisions)
                             r3.require(okq, (kfn, "check", opt), "success with options.%s configured but not compared (equal) with the KB-JWT's %s — path: …%s" % (opt, opt, why))
                         else:
